@@ -941,8 +941,8 @@ macro_rules! e2_check {
 e2_check!(
     C01,
     "C01",
-    60_000,
-    10_000_000,
+    200_000,
+    40_000_000,
     |rng: &mut Rng, idx: u64| if idx % 4 == 3 { gen_debounce(rng) } else { gen_events_opt(rng, idx % 2 == 1, true) },
     |scn: &E2Scn, d: &D2, _out: &RunOut, stats: &mut Stats| oracle_c01(scn, d, stats),
     vec![
@@ -962,8 +962,8 @@ e2_check!(
 e2_check!(
     C02,
     "C02",
-    60_000,
-    10_000_000,
+    200_000,
+    40_000_000,
     |rng: &mut Rng, idx: u64| if idx % 2 == 0 { gen_debounce(rng) } else { gen_events(rng, idx % 4 == 1) },
     |scn: &E2Scn, d: &D2, _out: &RunOut, stats: &mut Stats| oracle_c02(scn, d, stats),
     vec![
@@ -1341,16 +1341,16 @@ pub fn exh_fswatch(mut idx: u64, max_len: u32) -> Option<E2Scn> {
 e2_check!(
     C13,
     "C13",
-    exh_fswatch_count(2) + 60_000,
-    2 * exh_fswatch_count(3) + 6_000_000,
+    exh_fswatch_count(2) + 200_000,
+    2 * exh_fswatch_count(3) + 30_000_000,
     |rng: &mut Rng, idx: u64| {
         // quick: idx < count(2) exhaustive; thorough sees larger idx ranges first (count(3) twice)
         let n2 = exh_fswatch_count(2);
         let n3 = exh_fswatch_count(3);
         if idx < n2 {
             exh_fswatch(idx, 2).unwrap()
-        } else if idx >= n2 + 60_000 && idx < n2 + 60_000 + 2 * n3 {
-            exh_fswatch((idx - n2 - 60_000) % n3, 3).unwrap()
+        } else if idx >= n2 + 200_000 && idx < n2 + 200_000 + 2 * n3 {
+            exh_fswatch((idx - n2 - 200_000) % n3, 3).unwrap()
         } else {
             gen_fswatch(rng, idx % 2 == 1)
         }
@@ -1371,8 +1371,8 @@ e2_check!(
 e2_check!(
     C15,
     "C15",
-    80_000,
-    10_000_000,
+    200_000,
+    40_000_000,
     |rng: &mut Rng, idx: u64| match idx % 4 {
         0 | 1 => {
             let mut s = gen_events_opt(rng, true, true);
@@ -1716,8 +1716,8 @@ impl Check for C08 {
     }
     fn budget(&self, tier: Tier) -> u64 {
         match tier {
-            Tier::Quick => 100_000,
-            Tier::Thorough => 10_000_000,
+            Tier::Quick => 200_000,
+            Tier::Thorough => 40_000_000,
         }
     }
     fn generate(&self, rng: &mut Rng, idx: u64, _tier: Tier) -> Option<C08Scn> {
